@@ -934,6 +934,10 @@ def _history_run(ctx):
             break
         rec.c('history_steps')
         rec.c(f'history_step_{mode}')
+        if mode == 'quick_estimate' and st['change_init'] is not None and any(s_['mode'] == 'estimate' for s_ in steps[:k]):
+            # regression case of the repaired finding 5 (fix a25cd07): quick_estimate after an estimate() and a changed start
+            # must not report the initial log likelihood of that earlier run (judged in _judge)
+            rec.c('regression_quick_estimate_after_estimate_and_changed_start')
         if prev is not None:
             rec.c(f'history_{prev["mode"]}_then_{mode}')
             if prev['algo'] != algo:
@@ -981,7 +985,7 @@ def finalize(cov, tier):
             out.append(f'monitor / situation never observed: {k}')
     for k in ('history_steps', 'history_quick_estimate_then_estimate', 'history_estimate_then_estimate', 'history_estimate_then_quick_estimate',
               'history_steps_after_change_init_values', 'history_steps_with_bootstrap', 'history_steps_with_algorithm_changed',
-              'history_steps_with_max_iterations_changed'):
+              'history_steps_with_max_iterations_changed', 'regression_quick_estimate_after_estimate_and_changed_start'):
         if cov.get(k, 0) == 0:
             out.append(f'history situation never observed: {k}')
     runs = cov.get('runs_estimate', 0) + cov.get('runs_quick_estimate', 0)
